@@ -1,7 +1,7 @@
 SPECIFICATION Spec
 CONSTANTS
   Shapes <- ShapesC39
-  MaxBlocks = 2
+  MaxBlocks = 1
   Paths <- AllPaths
   Muts <- Single
   PreKinds <- NoKinds
